@@ -212,6 +212,7 @@ func (self *visitorUserNode) scalarDesc() (*proto.FieldDescriptor, error) {
 }
 
 func (self *visitorUserNode) OnNull() error {
+	defer self.trace("OnNull")
 	if self.inskip {
 		self.inskip = false
 		return nil
@@ -233,6 +234,7 @@ func (self *visitorUserNode) OnNull() error {
 }
 
 func (self *visitorUserNode) OnBool(v bool) error {
+	defer self.trace("OnBool")
 	if self.inskip {
 		self.inskip = false
 		return nil
@@ -266,6 +268,7 @@ func (self *visitorUserNode) OnBool(v bool) error {
 
 // Parse stringType/bytesType
 func (self *visitorUserNode) OnString(v string) error {
+	defer self.trace("OnString")
 	if self.inskip {
 		self.inskip = false
 		return nil
@@ -303,6 +306,7 @@ func (self *visitorUserNode) OnString(v string) error {
 }
 
 func (self *visitorUserNode) OnInt64(v int64, n json.Number) error {
+	defer self.trace("OnInt64")
 	if self.inskip {
 		self.inskip = false
 		return nil
@@ -396,6 +400,7 @@ func (self *visitorUserNode) OnInt64(v int64, n json.Number) error {
 }
 
 func (self *visitorUserNode) OnFloat64(v float64, n json.Number) error {
+	defer self.trace("OnFloat64")
 	if self.inskip {
 		self.inskip = false
 		return nil
@@ -466,6 +471,7 @@ func (self *visitorUserNode) OnFloat64(v float64, n json.Number) error {
 //  3. When Field is Message type, encode Tag and PrefixLen, and push FieldDescriptor and PrefixLen to the stack.
 //     When Field is Map type, only perform pressing stack operation.
 func (self *visitorUserNode) OnObjectBegin(capacity int) error {
+	defer self.trace("OnObjectBegin")
 	if self.inskip {
 		return ast.VisitOPSkip
 	}
@@ -566,6 +572,7 @@ func (self *visitorUserNode) encodeMapKey(key string, t proto.Type) error {
 //     2.2 The top of the stack is MapType, write PairTag, PairLen, MapKey, MapKeyLen, and MapKeyData; save MapDesc、PairPrefixLen into stack; save MapValueDescriptor into globalFieldDesc;
 //     2.3 The top of the stack is ListType, which exits after saving globalFieldDesc;
 func (self *visitorUserNode) OnObjectKey(key string) error {
+	defer self.trace("OnObjectKey")
 	var err error
 	var top *visitorUserNodeStack
 	var curDesc proto.FieldDescriptor
@@ -637,6 +644,7 @@ func (self *visitorUserNode) OnObjectKey(key string) error {
 
 // After parsing JSONObject, write back prefixLen of Message
 func (self *visitorUserNode) OnObjectEnd() error {
+	defer self.trace("OnObjectEnd")
 	if self.inskip {
 		self.inskip = false
 		return nil
@@ -653,6 +661,7 @@ func (self *visitorUserNode) OnObjectEnd() error {
 // 1. If PackedList, Encode ListTag、PrefixLen
 // 2. push ListDescriptor、PrefixLen(UnPackedList is -1) into stack
 func (self *visitorUserNode) OnArrayBegin(capacity int) error {
+	defer self.trace("OnArrayBegin")
 	if self.inskip {
 		return ast.VisitOPSkip
 	}
@@ -682,6 +691,7 @@ func (self *visitorUserNode) OnArrayBegin(capacity int) error {
 
 // After Parsing JSONArray, writing back PrefixLen If PackedList
 func (self *visitorUserNode) OnArrayEnd() error {
+	defer self.trace("OnArrayEnd")
 	if self.inskip {
 		self.inskip = false
 		return nil
